@@ -105,6 +105,13 @@ pub fn pool() -> Vec<Lab> {
         Lab::Str("x\u{a0}y".into()),
         Lab::Str("a\tb".into()),
         Lab::Greek('\u{3000}'),
+        // ... also at the end of a text (only U+0020 is padding); no line breaks here: the
+        // line-oriented printers (DOT, inspect, Debug) cannot show them unambiguously and the
+        // harness reads those texts line by line (line breaks are in the character sweep of
+        // the checks that do not parse text)
+        Lab::Str("foo\t".into()),
+        Lab::Str("ab\u{a0}".into()),
+        Lab::Str("foo\u{3000}".into()),
         // 8 characters of 4 bytes each (32 bytes of UTF-8)
         Lab::Str("𝜑𝜓𝜔𝛼𝛽𝛾𝛿𝜀".into()),
         // families of labels that collide under common lossy comparisons: code points equal
